@@ -10,7 +10,7 @@ import (
 
 // ringCases ties Model/Ring.v to the third-party ring buffer itself: a ring is brought into some geometry through its
 // public API (writes, partial retrievals, growth), its private state (buf, size, r, w, isEmpty) is read by reflection
-// and handed to the model, then the same Length / Peek / Retrieve sequence runs on both.
+// and handed to the model, then the same Write / Length / Peek / Retrieve sequence runs on both; the final size, r, w, isEmpty and content are compared.
 func (r *Run) ringCases(n int) {
 	g := r.rng
 	for i := 0; i < n; i++ {
@@ -43,8 +43,23 @@ func (r *Run) ringCases(n int) {
 		buf := append([]byte(nil), v.FieldByName("buf").Bytes()...)
 		sz, rr, ww, emp := int(v.FieldByName("size").Int()), int(v.FieldByName("r").Int()), int(v.FieldByName("w").Int()), v.FieldByName("isEmpty").Bool()
 		var ops, outs []string
-		for k, steps := 0, 1+g.Intn(6); k < steps; k++ {
-			switch g.Intn(3) {
+		for k, steps := 0, 1+g.Intn(8); k < steps; k++ {
+			switch g.Intn(4) {
+			case 3:
+				free := rb.Capacity() - rb.Length()
+				m := g.Intn(free + 2)
+				if g.Chance(20) {
+					m = free + 1 + g.Intn(5) // growth through makeSpace
+				}
+				if m > free {
+					r.count("ring.write.grow")
+				} else if m > 0 {
+					r.count("ring.write.fits")
+				}
+				d := g.Bytes(m)
+				_, _ = rb.Write(d)
+				ops = append(ops, "w"+hx(d))
+				outs = append(outs, "W")
 			case 0:
 				ops = append(ops, "l")
 				outs = append(outs, fmt.Sprintf("L %d", rb.Length()))
@@ -73,7 +88,7 @@ func (r *Run) ringCases(n int) {
 		}
 		f, e := rb.PeekAll()
 		content := append(append([]byte(nil), f...), e...)
-		outs = append(outs, fmt.Sprintf("S %d %d %s %s", v.FieldByName("r").Int(), v.FieldByName("w").Int(), b01(v.FieldByName("isEmpty").Bool()), hx(content)))
+		outs = append(outs, fmt.Sprintf("S %d %d %d %s %s", v.FieldByName("size").Int(), v.FieldByName("r").Int(), v.FieldByName("w").Int(), b01(v.FieldByName("isEmpty").Bool()), hx(content)))
 		switch {
 		case emp:
 			r.count("ring.start.empty")
